@@ -309,3 +309,195 @@ def replay(ctx, rep):   # noqa: F811
         from harness import common
         return common.scenario_replay(ctx, rep, {'valueeq': value_equal_scenarios})
     return _replay_l(ctx, rep)
+
+
+# ---------------------------------------------------------------------------
+# a ROOT of a resource, however it became one (read from an XMI or a JSON document, appended, extended, inserted by a
+# second load into the same set), is given a new owner as the FIRST thing that happens to it: a containment slot of an
+# object outside every resource, of a root of another resource, of a sibling root or of a sibling's descendant, or the
+# root list of another resource. One owner afterwards (the root list lets go of it), eContainer()/eResource say so, for
+# the object and for its descendants (oracle on the implementation only)
+
+def root_origin_scenarios(ctx, out):
+    import os
+    import tempfile
+    from harness import common
+    common.use_repo()
+    from pyecore import ecore as E
+    from pyecore.resources import ResourceSet, URI
+    from pyecore.resources.json import JsonResource
+    rng = common.rng_for(ctx.seed, 'C02:rootorigin')
+    n = 120 if ctx.tier != 'thorough' else 2500
+    cnt = 0
+    by_origin = {}
+    for it in range(n):
+        origin = rng.choice(['xmi', 'xmi', 'xmi', 'json', 'json', 'appended', 'extended'])
+        uuid = rng.random() < 0.4
+        pkg = E.EPackage('p', nsURI=f'http://verif/c02/rootorigin/{it}', nsPrefix='p')
+        N = E.EClass('N')
+        N.eStructuralFeatures.append(E.EAttribute('name', E.EString))
+        N.eStructuralFeatures.append(E.EReference('kids', N, upper=-1, containment=True))
+        N.eStructuralFeatures.append(E.EReference('one', N, containment=True))
+        pkg.eClassifiers.append(N)
+
+        def new_rset():
+            rs = ResourceSet()
+            rs.metamodel_registry[pkg.nsURI] = pkg
+            rs.resource_factory['json'] = lambda uri: JsonResource(uri)
+            return rs
+        count = [0]
+
+        def mk(d, prefix='n'):
+            o = N(name=f'{prefix}{count[0]}')
+            count[0] += 1
+            if d < 2:
+                for _ in range(rng.randrange(0, 3)):
+                    o.kids.append(mk(d + 1, prefix))
+                if rng.random() < 0.3:
+                    o.one = mk(d + 1, prefix)
+            return o
+        nroots = rng.choice([1, 2, 2, 3, 4])
+        hist = [['origin', origin, 'uuid', uuid, 'roots', nroots]]
+        case = {'scenario': 'rootorigin', 'seed': ctx.seed, 'tier': ctx.tier, 'history': hist}
+        sig = {'property': 'C02', 'scenario': 'rootorigin', 'origin': origin}
+        with tempfile.TemporaryDirectory() as tmp:
+            try:
+                ext = origin if origin in ('xmi', 'json') else rng.choice(['xmi', 'json'])
+                rs2 = new_rset()
+                if origin in ('xmi', 'json'):
+                    rs = new_rset()
+                    res = rs.create_resource(URI(os.path.join(tmp, 'm.' + ext)))
+                    res.use_uuid = uuid
+                    for _ in range(nroots):
+                        res.append(mk(0))
+                    res.save()
+                    r1 = rs2.get_resource(URI(os.path.join(tmp, 'm.' + ext)))
+                else:
+                    r1 = rs2.create_resource(URI(os.path.join(tmp, 'm.' + ext)))
+                    made = [mk(0) for _ in range(nroots)]
+                    if origin == 'appended':
+                        for m in made:
+                            r1.append(m)
+                    else:
+                        r1.extend(made)
+                r2 = rs2.create_resource(URI(os.path.join(tmp, 'other.' + ext)))
+                if len(r1.contents) != nroots:
+                    out.fail(dict(sig, clause='root-count'), f'{nroots} roots were put in, the resource lists {len(r1.contents)}', case)
+                    continue
+                # holders: h0/h1 outside every resource (h1 below h0), h2 a root of the other resource, h3 below it
+                hold = [N(name=f'h{i}') for i in range(4)]
+                hold[0].kids.append(hold[1])
+                r2.append(hold[2])
+                hold[2].kids.append(hold[3])
+                objs = [o for r in r1.contents for o in [r] + list(r.eAllContents())] + hold
+                ress = (r1, r2)
+
+                def verdict():
+                    for q in objs:
+                        for x in list(q.kids) + ([q.one] if q.one is not None else []):
+                            if x.eContainer() is not q:
+                                cx = x.eContainer()
+                                return 'slot-without-container', (f'{q.name} holds {x.name} in a containment slot but {x.name}.eContainer() is '
+                                                                  f'{cx.name if cx is not None else None}')
+                    for o in objs:
+                        listed = [r for r in ress for x in r.contents if x is o]
+                        slots = [(q.name, 'kids') for q in objs for x in q.kids if x is o] + [(q.name, 'one') for q in objs if q.one is o]
+                        c = o.eContainer()
+                        if len(listed) + len(slots) > 1:
+                            return 'two-owners', (f'{o.name} is listed as a root by {[os.path.basename(r.uri.plain) for r in listed]} and held by '
+                                                  f'the containment slots {slots}')
+                        if c is not None and not slots:
+                            return 'container-without-slot', f'{o.name} names {c.name} as its container but no containment slot holds it'
+                        if slots:
+                            f = o.eContainmentFeature()
+                            if c is None or c.name != slots[0][0] or f is None or f.name != slots[0][1]:
+                                return 'container-mismatch', (f'{o.name} sits in {slots[0][0]}.{slots[0][1]} but names '
+                                                              f'{c.name if c is not None else None}.{f.name if f is not None else None}')
+                        elif o.eContainmentFeature() is not None:
+                            return 'feature-without-slot', f'{o.name} has no container slot but eContainmentFeature() is {o.eContainmentFeature().name}'
+                        top, guard = o, 0
+                        while top.eContainer() is not None and guard < 100:
+                            top, guard = top.eContainer(), guard + 1
+                        where = [r for r in ress if any(x is top for x in r.contents)]
+                        want = where[0] if where else None
+                        if o.eResource is not want:
+                            got = o.eResource
+                            return 'eresource', (f'{o.name}.eResource is {os.path.basename(got.uri.plain) if got is not None else None} but its root '
+                                                 f'{top.name} is {"in " + os.path.basename(want.uri.plain) if want else "in no resource"}')
+                    return None
+                bad = verdict()
+                if bad:
+                    out.fail(dict(sig, clause=bad[0]), f'right after {hist[-1]}: {bad[1]}', case)
+                    continue
+                untouched = list(r1.contents)       # roots still in the state their origin left them in
+                for step in range(rng.randrange(1, 5)):
+                    if untouched and rng.random() < 0.8:
+                        o = untouched.pop(rng.randrange(len(untouched)))
+                        fresh = True
+                    else:
+                        o = rng.choice(objs[:-4])
+                        fresh = False
+                        untouched = [x for x in untouched if x is not o]
+                    k = rng.choice(['hold-out', 'hold-out', 'hold-other', 'under', 'under', 'to-other', 'rremove', 'again'])
+                    try:
+                        if k in ('hold-out', 'hold-other', 'under'):
+                            if k == 'hold-out':
+                                p = rng.choice(hold[:2])
+                            elif k == 'hold-other':
+                                p = rng.choice(hold[2:])
+                            else:
+                                p = rng.choice(objs[:-4])
+                            a, cyc = p, False
+                            while a is not None:
+                                cyc = cyc or a is o
+                                a = a.eContainer()
+                            if cyc:
+                                continue
+                            slot = 'kids' if rng.random() < 0.65 else 'one'
+                            hist.append([k, o.name, p.name, slot])
+                            if slot == 'kids':
+                                p.kids.append(o)
+                            else:
+                                p.one = o
+                        elif k == 'to-other':
+                            hist.append([k, o.name])
+                            r2.append(o)
+                        elif k == 'again':
+                            hist.append([k, o.name])
+                            r1.append(o)           # (a root of r1 stays where it is; anything else becomes its last root)
+                        else:
+                            if not any(x is o for x in r1.contents):
+                                continue
+                            hist.append([k, o.name])
+                            r1.remove(o)
+                    except Exception as e:  # noqa
+                        bad = ('edit-raised', f'{type(e).__name__}: {e}')
+                        break
+                    cnt += 1
+                    if fresh:
+                        by_origin[origin] = by_origin.get(origin, 0) + 1
+                    bad = verdict()
+                    if bad:
+                        break
+                if bad:
+                    out.fail(dict(sig, clause=bad[0]), f'after {hist[-1]}: {bad[1]}', case)
+            except Exception as e:  # noqa
+                out.fail(dict(sig, clause='rootorigin-raised'), f'{type(e).__name__}: {e}', case)
+    out.coverage['root_origin_edits_checked'] = cnt
+    out.coverage['root_origin_first_edits'] = dict(sorted(by_origin.items()))
+
+
+_run_v = run
+_replay_v = replay
+
+
+def run(ctx, out):   # noqa: F811
+    _run_v(ctx, out)
+    root_origin_scenarios(ctx, out)
+
+
+def replay(ctx, rep):   # noqa: F811
+    if rep.get('case', {}).get('scenario') == 'rootorigin':
+        from harness import common
+        return common.scenario_replay(ctx, rep, {'rootorigin': root_origin_scenarios})
+    return _replay_v(ctx, rep)
